@@ -1,6 +1,7 @@
 package main
 
 import (
+	"bytes"
 	"errors"
 	"fmt"
 	"go/token"
@@ -315,6 +316,12 @@ func (w *Worker) callSync(st *State, fn *ssa.Function, args []Value, bindings ..
 			if ret, ok := ins.(*ssa.Return); ok && len(st.frames) == 1 {
 				if len(ret.Results) == 1 {
 					result = w.get(st, f, ret.Results[0])
+				} else if len(ret.Results) > 1 {
+					tu := make(Tuple, len(ret.Results))
+					for i, r := range ret.Results {
+						tu[i] = w.get(st, f, r)
+					}
+					result = tu
 				}
 				done = true
 				return
@@ -435,6 +442,24 @@ func (w *Worker) sprintfSegs(st *State, segs []Seg, args []Value) (StrV, *Union)
 		out = strCat(out, strLit("%!(EXTRA …)"))
 	}
 	return out, lineArg
+}
+
+// concreteBytes: the bytes of a []byte value all of whose elements are constants.
+func concreteBytes(st *State, v Value) []byte {
+	sl := v.(SliceV)
+	if sl.id == 0 || sl.n == 0 {
+		return nil
+	}
+	elems := st.sliceElems(sl)
+	out := make([]byte, len(elems))
+	for i, e := range elems {
+		b, ok := e.(Term).bvVal()
+		if !ok {
+			panic(engineErr("symbolic byte in a byte slice handed to a library function"))
+		}
+		out[i] = byte(b)
+	}
+	return out
 }
 
 // writeTo: text written to os.Stdout / os.Stderr (an event) or to a bufio.Writer over one of
@@ -1086,9 +1111,34 @@ func (w *Worker) intrinsic(st *State, f *Frame, x ssa.Value, callee *ssa.Functio
 	case "(*bufio.Reader).ReadString":
 		w.readerReadString(st, set, args[0].(Ptr))
 	case "bufio.NewScanner":
-		// field 1: the maximum token size (bufio.MaxScanTokenSize until Buffer changes it); field 2: stopped
-		id := st.alloc(StructV{mkBV(0, 64), mkBV(65536, 64), mkBool(false)})
+		// field 1: the maximum token size (bufio.MaxScanTokenSize until Buffer changes it); field 2:
+		// stopped; field 3: the split function (none: lines, delivered one per Scan); fields 4-6,
+		// used with a split function: bytes read and not yet consumed, the current token, end of
+		// input seen
+		id := st.alloc(StructV{mkBV(0, 64), mkBV(65536, 64), mkBool(false), FuncV{}, StrV{}, StrV{}, mkBool(false)})
 		set(Ptr{id: id})
+	case "(*bufio.Scanner).Split":
+		r := args[0].(Ptr)
+		obj := append(StructV{}, st.heap[r.id].(StructV)...)
+		obj[3] = args[1].(FuncV)
+		st.heap[r.id] = obj
+	case "(*bufio.Scanner).Err":
+		set(nilUnion())
+	case "bytes.IndexAny", "bytes.IndexByte":
+		data := concreteBytes(st, args[0])
+		if full == "bytes.IndexByte" {
+			c, ok := args[1].(Term).bvVal()
+			if !ok {
+				panic(engineErr("bytes.IndexByte with a symbolic byte"))
+			}
+			set(mkBV(uint64(int64(bytes.IndexByte(data, byte(c)))), 64))
+		} else {
+			chars, ok := args[1].(StrV).concrete()
+			if !ok {
+				panic(engineErr("bytes.IndexAny with symbolic characters"))
+			}
+			set(mkBV(uint64(int64(bytes.IndexAny(data, chars))), 64))
+		}
 	case "(*bufio.Scanner).Buffer":
 		r := args[0].(Ptr)
 		obj := st.heap[r.id].(StructV)
@@ -1099,7 +1149,9 @@ func (w *Worker) intrinsic(st *State, f *Frame, x ssa.Value, callee *ssa.Functio
 		if c := int64(args[1].(SliceV).cap); c > mx {
 			mx = c
 		}
-		st.heap[r.id] = StructV{obj[0], mkBV(uint64(mx), 64), obj[2]}
+		nobj := append(StructV{}, obj...)
+		nobj[1] = mkBV(uint64(mx), 64)
+		st.heap[r.id] = nobj
 	case "(*bufio.Scanner).Scan":
 		w.scannerScan(st, set, args[0].(Ptr))
 	case "(*bufio.Scanner).Text":
